@@ -185,14 +185,17 @@ def inject(draw, spec, label, used, uid):
             ifield.setdefault("args", []).append({"name": "ia%d" % uid, "type": "Int"})
             return "ia%d" % uid, {}
         if label == "interface-argument-retyped":
-            ifield.setdefault("args", []).append({"name": "ia%d" % uid, "type": "Int"})
-            of.setdefault("args", []).append({"name": "ia%d" % uid, "type": "String"})
+            # argument types are invariant: another named type, or only another nullability / list depth
+            it, ot = draw(st.sampled_from([("Int", "String"), ("Int", "Int!"), ("Int!", "Int"), ("[Int]", "[Int!]"), ("[Int!]", "[Int]"),
+                                           ("[Int]", "Int"), ("Int", "[Int]"), ("[Int]", "[Int]!"), ("[[Int]]", "[[Int!]]")]))
+            ifield.setdefault("args", []).append({"name": "ia%d" % uid, "type": it})
+            of.setdefault("args", []).append({"name": "ia%d" % uid, "type": ot})
             # other implementers must stay valid
             for o in spec["order"]:
                 if o != n and types[o]["kind"] == "object" and i in types[o].get("interfaces", []):
                     for f in types[o]["fields"]:
                         if f["name"] == ifield["name"]:
-                            f.setdefault("args", []).append({"name": "ia%d" % uid, "type": "Int"})
+                            f.setdefault("args", []).append({"name": "ia%d" % uid, "type": it})
             return "ia%d" % uid, {}
         if label == "interface-extra-required-argument":
             of.setdefault("args", []).append({"name": "req%d" % uid, "type": "Int!"})
